@@ -1204,25 +1204,31 @@ package analysis
 //@   ensures forall M string :: forall p string :: old(inOpsIdx(s, M, p)) ==> inOpsIdx(s, M, p)
 //@   ensures forall c string :: old(c in dom(s.consumes)) ==> c in dom(s.consumes)
 //@   ensures forall c string :: old(c in dom(s.produces)) ==> c in dom(s.produces)
+//@   ensures forall M string :: opAtM(*pi, M) != nil ==> (forall i in 0..len(opAtM(*pi, M).Consumes) :: opAtM(*pi, M).Consumes[i] in dom(s.consumes)) && (forall i in 0..len(opAtM(*pi, M).Produces) :: opAtM(*pi, M).Produces[i] in dom(s.produces))
+//@   ensures forall c in dom(s.consumes) :: old(c in dom(s.consumes)) || (exists M string :: opAtM(*pi, M) != nil && inStrs(opAtM(*pi, M).Consumes, c))
+//@   ensures forall c in dom(s.produces) :: old(c in dom(s.produces)) || (exists M string :: opAtM(*pi, M) != nil && inStrs(opAtM(*pi, M).Produces, c))
 //@   loop 1: modifies heap spec.Parameter, map s.allSchemas, map s.allOfs, map s.references.schemas, map s.references.responses, map s.references.parameters, map s.references.items, map s.references.headerItems, map s.references.parameterItems, map s.references.allRefs, map s.patterns.parameters, map s.patterns.headers, map s.patterns.items, map s.patterns.schemas, map s.patterns.allPatterns, map s.enums.parameters, map s.enums.headers, map s.enums.items, map s.enums.schemas, map s.enums.allEnums
 
 // wfOps: the operations index is exactly the operations of the document under the seven methods
 //@ fun docPaths(s *Spec) map[string]spec.PathItem = if s.spec == nil || s.spec.Paths == nil then nil else s.spec.Paths.Paths
 //@ fun wfOps(s *Spec) bool = opsWF(s) && (forall M string :: forall p string :: inOpsIdx(s, M, p) <==> (p in dom(docPaths(s)) && opAtM(docPaths(s)[p], M) != nil)) && (forall M string :: forall p string :: inOpsIdx(s, M, p) ==> s.operations[M][p] == opAtM(docPaths(s)[p], M))
 
+// wfMedia: the required media type sets are the union over the document and all its operations
+//@ fun wfMedia(s *Spec) bool = (forall c string :: (c in dom(s.consumes)) <==> (inStrs(s.spec.Consumes, c) || (exists p in dom(docPaths(s)) :: exists M string :: opAtM(docPaths(s)[p], M) != nil && inStrs(opAtM(docPaths(s)[p], M).Consumes, c)))) && (forall c string :: (c in dom(s.produces)) <==> (inStrs(s.spec.Produces, c) || (exists p in dom(docPaths(s)) :: exists M string :: opAtM(docPaths(s)[p], M) != nil && inStrs(opAtM(docPaths(s)[p], M).Produces, c))))
+
 //@ func (s *Spec) initialize()
 //@   aspect ops
 //@   requires s != nil && s.spec != nil && idxMaps(s) && opsWF(s) && (forall M string :: !(M in dom(s.operations)))
+//@   requires (forall c string :: !(c in dom(s.consumes))) && (forall c string :: !(c in dom(s.produces)))
 //@   modifies heap spec.Parameter, heap spec.PathItem, map s.operations, heap map[string]*spec.Operation, map s.consumes, map s.produces, map s.authSchemes, map s.allSchemas, map s.allOfs, map s.references.schemas, map s.references.responses, map s.references.parameters, map s.references.items, map s.references.headerItems, map s.references.parameterItems, map s.references.allRefs, map s.references.pathItems, map s.patterns.parameters, map s.patterns.headers, map s.patterns.items, map s.patterns.schemas, map s.patterns.allPatterns, map s.enums.parameters, map s.enums.headers, map s.enums.items, map s.enums.schemas, map s.enums.allEnums
 //@   ensures wfOps(s)
-//@   ensures forall i in 0..len(s.spec.Consumes) :: s.spec.Consumes[i] in dom(s.consumes)
-//@   ensures forall i in 0..len(s.spec.Produces) :: s.spec.Produces[i] in dom(s.produces)
+//@   ensures wfMedia(s)
 //@   loop 1: modifies map s.consumes
 //@   loop 1: invariant forall i in 0..idx :: s.spec.Consumes[i] in dom(s.consumes)
-//@   loop 1: invariant forall c string :: old(c in dom(s.consumes)) ==> c in dom(s.consumes)
+//@   loop 1: invariant forall c in dom(s.consumes) :: inStrs(s.spec.Consumes, c)
 //@   loop 2: modifies map s.produces
 //@   loop 2: invariant forall i in 0..idx :: s.spec.Produces[i] in dom(s.produces)
-//@   loop 2: invariant forall c string :: old(c in dom(s.produces)) ==> c in dom(s.produces)
+//@   loop 2: invariant forall c in dom(s.produces) :: inStrs(s.spec.Produces, c)
 //@   loop 3: modifies map s.authSchemes
 //@   loop 4: modifies map s.authSchemes
 //@   loop 5: modifies heap spec.Parameter, heap spec.PathItem, map s.operations, heap map[string]*spec.Operation, map s.consumes, map s.produces, map s.authSchemes, map s.allSchemas, map s.allOfs, map s.references.schemas, map s.references.responses, map s.references.parameters, map s.references.items, map s.references.headerItems, map s.references.parameterItems, map s.references.allRefs, map s.references.pathItems, map s.patterns.parameters, map s.patterns.headers, map s.patterns.items, map s.patterns.schemas, map s.patterns.allPatterns, map s.enums.parameters, map s.enums.headers, map s.enums.items, map s.enums.schemas, map s.enums.allEnums
@@ -1230,7 +1236,10 @@ package analysis
 //@   loop 5: invariant forall p in seen :: p in dom(docPaths(s))
 //@   loop 5: invariant forall p in seen :: forall M string :: opAtM(docPaths(s)[p], M) != nil ==> inOpsIdx(s, M, p) && s.operations[M][p] == opAtM(docPaths(s)[p], M)
 //@   loop 5: invariant forall M string :: forall p string :: inOpsIdx(s, M, p) ==> p in seen && opAtM(docPaths(s)[p], M) != nil && s.operations[M][p] == opAtM(docPaths(s)[p], M)
-//@   loop 5: invariant (forall c string :: old(c in dom(s.consumes)) ==> c in dom(s.consumes)) && (forall i in 0..len(s.spec.Consumes) :: s.spec.Consumes[i] in dom(s.consumes)) && (forall i in 0..len(s.spec.Produces) :: s.spec.Produces[i] in dom(s.produces))
+//@   loop 5: invariant (forall i in 0..len(s.spec.Consumes) :: s.spec.Consumes[i] in dom(s.consumes)) && (forall i in 0..len(s.spec.Produces) :: s.spec.Produces[i] in dom(s.produces))
+//@   loop 5: invariant forall p in seen :: forall M string :: opAtM(docPaths(s)[p], M) != nil ==> (forall i in 0..len(opAtM(docPaths(s)[p], M).Consumes) :: opAtM(docPaths(s)[p], M).Consumes[i] in dom(s.consumes)) && (forall i in 0..len(opAtM(docPaths(s)[p], M).Produces) :: opAtM(docPaths(s)[p], M).Produces[i] in dom(s.produces))
+//@   loop 5: invariant forall c in dom(s.consumes) :: inStrs(s.spec.Consumes, c) || (exists p in seen :: exists M string :: opAtM(docPaths(s)[p], M) != nil && inStrs(opAtM(docPaths(s)[p], M).Consumes, c))
+//@   loop 5: invariant forall c in dom(s.produces) :: inStrs(s.spec.Produces, c) || (exists p in seen :: exists M string :: opAtM(docPaths(s)[p], M) != nil && inStrs(opAtM(docPaths(s)[p], M).Produces, c))
 //@   loop 6: modifies map s.allSchemas, map s.allOfs, map s.references.schemas, map s.references.responses, map s.references.parameters, map s.references.items, map s.references.headerItems, map s.references.parameterItems, map s.references.allRefs, map s.references.pathItems, map s.patterns.parameters, map s.patterns.headers, map s.patterns.items, map s.patterns.schemas, map s.patterns.allPatterns, map s.enums.parameters, map s.enums.headers, map s.enums.items, map s.enums.schemas, map s.enums.allEnums
 //@   loop 7: modifies map s.allSchemas, map s.allOfs, map s.references.schemas, map s.references.responses, map s.references.parameters, map s.references.items, map s.references.headerItems, map s.references.parameterItems, map s.references.allRefs, map s.references.pathItems, map s.patterns.parameters, map s.patterns.headers, map s.patterns.items, map s.patterns.schemas, map s.patterns.allPatterns, map s.enums.parameters, map s.enums.headers, map s.enums.items, map s.enums.schemas, map s.enums.allEnums
 //@   loop 8: modifies map s.allSchemas, map s.allOfs, map s.references.schemas, map s.references.responses, map s.references.parameters, map s.references.items, map s.references.headerItems, map s.references.parameterItems, map s.references.allRefs, map s.references.pathItems, map s.patterns.parameters, map s.patterns.headers, map s.patterns.items, map s.patterns.schemas, map s.patterns.allPatterns, map s.enums.parameters, map s.enums.headers, map s.enums.items, map s.enums.schemas, map s.enums.allEnums
@@ -1293,3 +1302,15 @@ package analysis
 //@   loop 1: invariant prod != nil && fresh(prod) && (forall k string :: (k in dom(prod)) <==> (exists i in 0..idx :: s.spec.Produces[i] == k))
 //@   loop 2: modifies map prod
 //@   loop 2: invariant prod != nil && fresh(prod) && (forall k string :: (k in dom(prod)) <==> (exists i in 0..idx :: operation.Produces[i] == k))
+
+//@ func (s *Spec) RequiredConsumes()
+//@   requires s != nil && s.spec != nil && wfMedia(s)
+//@   modifies nothing
+//@   ensures forall c string :: inStrs(result, c) <==> (inStrs(s.spec.Consumes, c) || (exists p in dom(docPaths(s)) :: exists M string :: opAtM(docPaths(s)[p], M) != nil && inStrs(opAtM(docPaths(s)[p], M).Consumes, c)))
+//@   ensures forall i in 0..len(result) :: forall j in 0..len(result) :: i != j ==> result[i] != result[j]
+
+//@ func (s *Spec) RequiredProduces()
+//@   requires s != nil && s.spec != nil && wfMedia(s)
+//@   modifies nothing
+//@   ensures forall c string :: inStrs(result, c) <==> (inStrs(s.spec.Produces, c) || (exists p in dom(docPaths(s)) :: exists M string :: opAtM(docPaths(s)[p], M) != nil && inStrs(opAtM(docPaths(s)[p], M).Produces, c)))
+//@   ensures forall i in 0..len(result) :: forall j in 0..len(result) :: i != j ==> result[i] != result[j]
